@@ -176,7 +176,7 @@ func H_C15_backslash() {
 	l := &c15Loader{files: map[string]string{}}
 	c := &c15Cache{m: map[string]*Template{}}
 	set := NewSet(l, WithCache(c))
-	name := ndName("name", c15NameLen())
+	name := ndName("name", 4+2*vfTier()) // 4 (quick) / 6 (thorough) bytes
 	vfAssume(hxContains(name, "\\"))
 	form := ndChoice("form", 4)
 	if form == 0 {
